@@ -772,13 +772,29 @@ def container_method(tp, name):
 
             def call(it, d, *a, **k):
                 a = list(a)
+                from .engine import has_symkeys, unkey, _MISSING
+
                 if name in ("get", "setdefault", "pop") and a:
-                    a[0] = it.concrete_key(a[0])
+                    if is_sym(a[0]) or has_symkeys(d):
+                        kk = it.dict_find(d, a[0])
+                        if kk is _MISSING:
+                            if name == "get":
+                                return a[1] if len(a) > 1 else None
+                            raise Undecided(f"dict.{name} of an absent key on a dict with term keys")
+                        a[0] = kk
+                    else:
+                        a[0] = it.concrete_key(a[0])
+                if name == "update" and has_symkeys(d):
+                    raise Undecided("dict.update on a dict with term keys")
                 try:
                     r = getattr(d, name)(*a, **k)
                 except Exception as ex:
                     raise PyRaise(type(ex), ex.args)
-                if name in ("keys", "values", "items"):
+                if name == "keys":
+                    return [unkey(x) for x in r]
+                if name == "items":
+                    return [(unkey(x), y) for x, y in r]
+                if name == "values":
                     return list(r)
                 return r
 
